@@ -1363,7 +1363,8 @@ pub fn clock(cx: &mut Raw) {
             let r1 = crate::val::outcome(&ctx.exec("main", &b));
             std::thread::sleep(std::time::Duration::from_millis(3));
             let r2 = crate::val::outcome(&ctx.exec("main", &b));
-            if precise {
+            // only where the value came out whole: a failure inside it (string(list), ...) is the same failure twice
+            if precise && !r1.to_string().contains("\"t\":\"err\"") {
                 j["tick"] = json!([r1, r2]);
             }
         }
